@@ -305,10 +305,16 @@ def _worker(args):
         outs = run_driver([prop.model_line(c) for c, _ in batch])
         for (c, io), mo in zip(batch, outs):
             if not prop.agree(c, io, mo):
-                if len(res['mism']) < 50:
+                # keep a few examples per failure class so one flood cannot hide another defect
+                try:
+                    cls = prop.signature(c, io, mo)
+                except Exception:  # noqa: BLE001
+                    cls = None
+                cls = cls or (c['op'], io.split(':')[0:2].__repr__(), mo.split(':')[0:2].__repr__())
+                k = res.setdefault('mism_classes', {})
+                k[cls] = k.get(cls, 0) + 1
+                if k[cls] <= 5 and len(res['mism']) < 400:
                     res['mism'].append((dict(c), io, mo))
-                else:
-                    res['truncated'] = True
         batch.clear()
 
     cov.start()
@@ -431,7 +437,7 @@ def main_check(prop, modname, clsname, tier, seed):
     os.makedirs(WORK, exist_ok=True)
 
     # -- 1/2: T1 tables, Lean build, axiom audit ------------------------------------------
-    b = build.prepare(prop)
+    b = build.prepare(prop, tier)
     if b['infra_error']:
         print('INFRA-ERROR: ' + b['infra_error'])
         return 2
@@ -525,18 +531,41 @@ def main_check(prop, modname, clsname, tier, seed):
             nviol += 1
         exit_code = 1
 
+    # -- canary: the comparison must fire on a deliberately wrong model answer -------------------
+    canary = canary_selftest(prop, samples)
+
     # -- 5: evidence ----------------------------------------------------------------------------
     cov = dict(evaluations=n, distinct_nontrivial=len(keys), samples=samples,
                input_distribution=dict(sorted(dist.items(), key=lambda kv: -kv[1])[:60]),
                line_coverage=line_cov, mined_literals=len(prop.pool),
                known_findings_seen=sorted(seen_known), broken_ties=[n_ for n_, _ in broken_ties],
                shards=len(results), tier_run=run_tier,
-               truncated_by_budget=any(r['truncated'] for r in results))
+               truncated_by_budget=any(r['truncated'] for r in results), canary=canary,
+               leanchecker=b['audit'].get('leanchecker', 'not run (thorough tier only)'))
     write_evidence(prop, tier, seed, time.time() - t0, cov, b['audit'], {}, nviol)
     print('%s %s: %d cases (%d distinct non-trivial), %d theorem obligations discharged of %d, %d violation(s), %.1fs'
           % (prop.id, tier, n, len(keys), b['audit'].get('discharged', 0), b['audit'].get('obligations', 0),
              nviol, time.time() - t0))
     return exit_code
+
+
+def canary_selftest(prop, samples):
+    """Corrupt the model's answer for sampled cases and require `agree` to notice."""
+    tried = fired = 0
+    for smp in samples:
+        c = Case(smp['case'])
+        try:
+            io = prop.impl(c)
+            mo = run_driver([prop.model_line(c)])[0]
+        except Exception:  # noqa: BLE001
+            continue
+        if not prop.agree(c, io, mo):
+            continue
+        tried += 1
+        wrong = (mo + '00') if not mo.startswith('err:') else 'ok'
+        if not prop.agree(c, io, wrong):
+            fired += 1
+    return dict(tried=tried, fired=fired)
 
 
 def main_replay(prop, path):
